@@ -5,12 +5,15 @@ source; the same records arrive from every input-source form.  Three monitors (D
      separate mlr processes, each fed the previous one's stdout, through JSON / JSON Lines /
      DKVP / CSV / TSV intermediates (text intermediates only where the stage's records are inside the
      format's lossless domain).  Compared on parsed records (key order + value text [+ JSON kind]).
-  b  context model: file lists (empty files, header-only CSV, headers differing per file, implicit
-     header, ragged CSV, no final newline, CRLF, schema changes inside csvlite/pprint files, odd
-     file names) x batch sizes {1,2,500} x 9 input formats, against an arithmetic model of
+  b  context model: file lists (empty files, header-only files, headers differing per file, implicit
+     header, ragged rows, comment lines, byte-order marks, barred PPRINT, no final newline, CRLF, schema changes
+     inside csvlite/tsvlite/pprint files, odd file names) x batch sizes {1,2,500, and 513/1000/5000 for long lists}
+     x 17 input formats (every reader), against an arithmetic model of
      NR/FNR/FILENAME/FILENUM/NF (also mid-expression), end-block NR, context surviving pass-through
-     verbs, `cat --filename --filenum`, and `mlr V f1..fn` == concat of `mlr V fi`.
-  c  input-source forms: the same records as plain files, --from, --mfrom, stdin, .gz/.bz2/.z/.zst by
+     verbs, `cat --filename --filenum`, and `mlr V f1..fn` == concat of `mlr V fi`; plus a sweep of every
+     reader x every per-file reader option over lists whose files all have their own columns.
+  c  input-source forms: the same records as plain files, --from, --mfrom, --files lists (with / without final
+     newline, CRLF, given twice, mixed with the other ways of naming inputs), file:// names, stdin, .gz/.bz2/.z/.zst by
      extension, --gzin/--bz2in/--zin/--zstdin by flag (files and stdin), --prepipe / --prepipex /
      --prepipe-gunzip / --prepipe-zcat, prepipe overriding extension and flag, multi-member gzip,
      mixed lists; all must equal the model (and hence the plain-file run).
@@ -276,6 +279,8 @@ def a_records(rng, n, ragged, hetero, wide, rich, homog=False):
             rec.append(("t", str(rng.randint(0, 2_000_000_000))))
         if (m_always if homog else rng.random() >= max(ragged, 0.5)):
             rec.append(("m", rng.choice(M_POOL)))
+        if rng.random() >= ragged:
+            rec.append(("rc", str(rng.choice([0, 1, 1, 2, 3]))))       # a small count (repeat -f)
         if hetero and rng.random() < 0.3:
             rec.append((rng.choice(["p", "q", "r"]), rng.choice(["u", "v", "3", "0.5"])))
         if wide:
@@ -341,6 +346,15 @@ DSL = [
     (["put", 'unset $x; $y = is_empty($y) ? "E" : $y'], "put-ternary"),
     (["put", '$k = sub($a, "e", "X") . gsub($b, "[0-9]", "#")'], "put-sub"),
     (["put", '$first = splitax($s, ";")[1]'], "put-splitax"),
+    (["put", "-q", '@sum[$a][$b] += $i; @cnt[$a][$b] += 1; end { emitp (@sum, @cnt), "a" }'], "put-emitp-lashed"),
+    (["put", "-q", '@last = $*; end { emit @last }'], "put-emit-last"),
+    (["put", "-q", '@recs[$id] = $*; end { emit @recs, "id" }'], "put-retain-all"),
+    (["put", '$prev = @prev ?? "none"; @prev = $id'], "put-lag"),
+    (["put", "-q", 'if (is_present(@held)) { emit @held } @held = $*; end { emit @held }'], "put-delay-1"),
+    (["put", 'begin { @first = "" } if (@first == "") { @first = $id } $first = @first; $seen = @n ?? 0; @n = $seen + 1'], "put-first-seen"),
+    (["put", "-q", 'emit1 {"id": $id, "k": strlen($a)}'], "put-emit1"),
+    (["put", '@m[$a] = max(@m[$a] ?? $i, $i); $runmax = @m[$a]; unset @m["nosuch"]'], "put-runmax"),
+    (["filter", "-q", 'true; end { emit {"done": "yes"} }'], "filter-q-end"),
     (["filter", "$i % 2 == 0"], "filter-mod"),
     (["filter", "-x", 'is_present($a) && $a == "pan"'], "filter-x"),
     (["filter", 'is_present($x) && $x > 0 || $b == ""'], "filter-or"),
@@ -363,7 +377,8 @@ RANDOM_FAMILIES = ("shuffle", "bootstrap", "bootstrap-ci")
 CORE_UP = ["repeat", "tee", "split", "nest-explode", "nest-implode", "fill-down", "unsparsify", "count-similar", "tac", "group-by",
            "group-like", "sort", "top", "head-g", "tail", "uniq-a", "join", "reshape-w2l", "reshape-l2w", "fraction", "rank",
            "stats1-s", "step", "decimate", "gap", "put-emit-end", "put-emit-rec", "put-count", "seqgen", "regularize"]
-CORE_DOWN = ["cat-n", "put-count", "put-rsum", "step", "head", "tac", "count", "put-dot", "label", "fill-down", "tee", "uniq-a"]
+CORE_DOWN = ["cat-n", "put-count", "put-rsum", "step", "head", "tac", "count", "put-dot", "label", "fill-down", "tee", "uniq-a",
+             "tail-from", "decimate", "head-neg", "put-lag"]      # (second row: position-counting verbs, added after seeded change C11r2-a)
 
 
 # Key-lifecycle core (added after seeded change C05-a): every (upstream that renames / removes / re-creates / reorders
@@ -397,7 +412,7 @@ KEY_DOWN = [
     ("rename-ba", ["rename", "b,a"]), ("rename-za", ["rename", "z,a"]), ("rename-a-new", ["rename", "a,n,w3,a"]),
     ("reorder-a", ["reorder", "-f", "a"]), ("reorder-e-z", ["reorder", "-e", "-f", "z,a"]),
     ("sort-f-a", ["sort", "-f", "a", "-nr", "w3"]), ("head-g-a", ["head", "-n", "1", "-g", "a"]), ("count-distinct-a", ["count-distinct", "-f", "a"]),
-    ("fill-down-a", ["fill-down", "-a", "-f", "a,z"]), ("having-a", ["having-fields", "--at-least", "a"]), ("having-z", ["having-fields", "--any-defined", "z,a"]),
+    ("fill-down-a", ["fill-down", "-a", "-f", "a,z"]), ("having-a", ["having-fields", "--at-least", "a"]), ("having-z", ["having-fields", "--at-least", "z"]), ("having-none", ["having-fields", "--none-matching", "^a$"]),
     ("nest-implode-a", ["nest", "--ivar", ";", "-f", "a"]), ("sec2gmt-a", ["sec2gmt", "a,w3,t"]), ("template-a", ["template", "-f", "a,z,w3"]),
     ("unsparsify-a", ["unsparsify", "-f", "a,z"]), ("stats1-a", ["stats1", "-a", "count,mode", "-f", "a,w3"]), ("label-a", ["label", "a"]),
     ("sub-a", ["sub", "-f", "a,z", "e", "E"]), ("merge-fields-a", ["merge-fields", "-k", "-a", "count", "-f", "a,z,w3", "-o", "azw"]),
@@ -417,34 +432,45 @@ def catalogue(rng):
 
     add("cat", ["cat"])
     add("cat-n", ["cat"] + rng.choice([["-n"], ["-n", "-g", g], ["-N", "idx"], ["-N", "idx", "-g", g]]))
+    # head -n k / -n -k (all but the last k); tail -n k / -n +k (from the k-th on); each plain and by category
     add("head", ["head", "-n", str(k)])
+    add("head-neg", ["head", "-n", "-" + str(rng.choice([1, 2, 3, 5]))] + rng.choice([[], ["-g", g]]))
     add("head-g", ["head", "-n", str(max(1, k % 4)), "-g", g])
-    add("tail", ["tail", "-n", str(k)] + rng.choice([[], ["-g", g]]))
+    add("tail", ["tail", "-n", rng.choice(["", "", "+"]) + str(rng.choice([1, 2, 3, 5, 17]) if k == 0 else k)] + rng.choice([[], [], ["-g", g]]))
+    add("tail-from", ["tail", "-n", "+" + str(rng.choice([2, 3, 4, 6]))] + rng.choice([[], [], ["-g", g]]))
     add("tac", ["tac"])
     sf = []
     for _ in range(rng.randint(1, 2)):
         sf += [rng.choice(["-f", "-r", "-nf", "-nr", "-c", "-cr", "-t", "-tr"]), rng.choice(["a", "b", "i", "x", "y", "id", "a,b"])]
-    add("sort", ["sort"] + sf)
-    add("uniq-g", ["uniq", "-g", g] + rng.choice([[], ["-c"], ["-n"], ["-c", "-o", "cnt"]]))
+    add("sort", ["sort"] + sf + (["-b"] if rng.random() < 0.1 else []))
+    add("uniq-g", ["uniq", rng.choice(["-g", "-f"]), g] + rng.choice([[], ["-c"], ["-n"], ["-c", "-o", "cnt"]]))
     add("uniq-a", ["uniq", "-a"] + rng.choice([[], ["-c"], ["-n"]]))
     add("uniq-x", ["uniq", "-x", "id,x,y,i,t,s,m"] + rng.choice([[], ["-c"]]))
     add("count", ["count"] + rng.choice([[], ["-g", g], ["-n", "-g", g], ["-o", "N"]]))
-    add("count-distinct", ["count-distinct", "-f", g] + rng.choice([[], ["-n"], ["-u"], ["-o", "N"]]))
+    add("count-distinct", ["count-distinct"] + rng.choice([["-f", g], ["-f", g, "-n"], ["-f", g, "-u"], ["-f", g, "-o", "N"], ["-g", "a,b", "-u"],
+                                                           ["-x", "id,x,y,i,t,s,m"], ["-x", "id,x,y,i,t,s,m", "-n"]]))
     add("count-similar", ["count-similar", "-g", g] + rng.choice([[], ["-o", "cs"]]))
     add("stats1", ["stats1", "-a", rng.choice(["mean,sum,count,min,max", "p10,p50,p90,p25.2",
                                                "mode,antimode,distinct_count,null_count",
                                                "var,meaneb,minlen,maxlen", "median,stddev,skewness"]),
-                   "-f", rng.choice(["x,i", "i", "y", "x,y,i"])] + rng.choice([[], ["-g", g], ["-i"], ["-g", "a", "-i"]]))
-    add("stats1-s", ["stats1", "-a", "sum,count", "-f", nf] + rng.choice([["-s"], ["-w", "3"], ["-w", "2", "-g", "a"]]))
-    add("stats2", ["stats2", "-a", rng.choice(["cov", "corr", "linreg-ols,r2"]), "-f", "x,i"] + rng.choice([[], ["-g", "a"]]))
+                   ] + rng.choice([["-f", "x,i"], ["-f", "i"], ["-f", "y"], ["-f", "x,y,i"], ["--fr", "^[xi]$"], ["--fx", "^[^xyi]"]])
+        + rng.choice([[], ["-g", g], ["-i"], ["-g", "a", "-i"], ["--gr", "^[ab]$"], ["--gx", "^[^a]"]]))
+    add("stats1-grfx", ["stats1", "-a", "count,sum,mode", "--grfx", "^[ab]$"])
+    add("stats1-s", ["stats1", "-a", "sum,count", "-f", nf] + rng.choice([["-s"], ["-s", "-g", "a"], ["-w", "3"], ["-w", "2", "-g", "a"], ["-w", "1"]]))
+    add("stats2", ["stats2", "-a", rng.choice(["cov", "corr", "linreg-ols,r2", "covx", "linreg-pca"]), "-f", rng.choice(["x,i", "x,i,i,t"])] + rng.choice([[], ["-g", "a"]]))
+    add("stats2-fit", ["stats2", "-a", rng.choice(["linreg-ols", "linreg-pca", "linreg-ols,r2"]), "-f", "x,i"] + rng.choice([["--fit"], ["--fit", "-g", "a"], ["-s"]]))
     add("step", ["step", "-a", rng.choice(["delta,shift,counter,rsum", "shift_lag,ratio", "shift_lead,from-first",
-                                           "rprod,counter", "slwin_2_2", "ewma"]), "-f", rng.choice(["i", "x", "i,x"])]
-        + rng.choice([[], ["-g", "a"]]))
+                                           "rprod,counter", "slwin_2_2", "ewma", "delta_2,ratio_2", "shift_lag_3,shift_lead_2", "shift_2,counter",
+                                           "slwin_0_2,slwin_3_0", "counter", "rsum,from-first"]), "-f", rng.choice(["i", "x", "i,x"])]
+        + rng.choice([[], ["-g", "a"], ["-g", "a,b"]]))
     add("step-ewma", ["step", "-a", "ewma", "-d", "0.1,0.9", "-f", "x"] + rng.choice([[], ["-o", "smooth,rough"]]))
     add("merge-fields", rng.choice([["merge-fields", "-a", "sum,count", "-f", "x,i", "-o", "xi"],
                                     ["merge-fields", "-k", "-a", "max,min", "-c", "x,y", "-o", "m"],
                                     ["merge-fields", "-a", "mean,var", "-r", "^[xyi]$", "-o", "R"],
-                                    ["merge-fields", "-k", "-a", "p50,count", "-f", "i,t", "-o", "it"]]))
+                                    ["merge-fields", "-k", "-a", "p50,count", "-f", "i,t", "-o", "it"],
+                                    ["merge-fields", "-i", "-a", "p25,median", "-f", "x,i,t", "-o", "q"],
+                                    ["merge-fields", "-a", "null_count,distinct_count,mode,antimode,minlen", "-f", "a,b,y", "-o", "ab"],
+                                    ["merge-fields", "-k", "-a", "sum,maxlen", "-c", "w1,w2", "-o", "ww"]]))
     d = rng.choice(DSL)
     add(d[1], list(d[0]))
     d2 = rng.choice(DSL)
@@ -454,30 +480,44 @@ def catalogue(rng):
                            ["cut", "-r", "-f", "^[ab]$"], ["cut", "-x", "-r", "-f", '"^W"i'], ["cut", "-f", "nosuch"]]))
     add("having-fields", ["having-fields"] + rng.choice([["--at-least", f], ["--all-matching", "^[a-z]"],
                                                          ["--any-matching", "^[pqr]$"], ["--none-matching", "^y$"],
-                                                         ["--at-most", "id,a,b,i,x,y,s,t"]]))
+                                                         ["--at-most", "id,a,b,i,x,y,s,t,rc"], ["--which-are", "id,a,b,i,x,y,s,t,rc"],
+                                                         ["--at-least", "a,b"]]))
     add("rename", rng.choice([["rename", "a,A"], ["rename", "-r", "^(.)$,f_\\1"], ["rename", "-g", "-r", "[aeiou],V"],
                               ["rename", "a,b"], ["rename", "x,y,y,x"]]))
-    add("reorder", rng.choice([["reorder", "-f", "x,i"], ["reorder", "-e", "-f", "id"], ["reorder", "-e", "-f", "a,nosuch"]]))
+    add("reorder", rng.choice([["reorder", "-f", "x,i"], ["reorder", "-e", "-f", "id"], ["reorder", "-e", "-f", "a,nosuch"],
+                               ["reorder", "-r", "^[xy],^i"], ["reorder", "-e", "-r", "^[ab]$"], ["reorder", "-f", "x,i", "-b", "a"],
+                               ["reorder", "-f", "id,b", "-a", "x"]]))
     add("regularize", ["regularize"])
     add("unsparsify", ["unsparsify"] + rng.choice([[], ["--fill-with", "X"]]))
     add("unsparsify-f", ["unsparsify", "-f", "a,b,zz"])
-    add("fill-down", ["fill-down"] + rng.choice([["-f", "a"], ["-a", "-f", "b"], ["--all"], ["-a", "--all"], ["-f", "y,b"]]))
+    add("fill-down", ["fill-down"] + rng.choice([["-f", "a"], ["-a", "-f", "b"], ["--all"], ["-a", "--all"], ["-f", "y,b"],
+                                                 ["--only-if-absent", "-f", "m,p"], ["-f", "m,y,nosuch"]]))
     add("fill-empty", ["fill-empty"] + rng.choice([[], ["-v", "E"], ["-S", "-v", "E"]]))
     add("label", ["label", rng.choice(["ID,AA", "q", "a,b,c,d"])])
-    add("sec2gmt", ["sec2gmt"] + rng.choice([[], ["-3"], ["--millis"], ["-6", "--micros"]]) + [rng.choice(["t", "i", "t,i", "x"])])
+    add("sec2gmt", ["sec2gmt"] + rng.choice([[], ["-3"], ["--millis"], ["-6", "--micros"], ["-" + str(rng.randint(1, 9))], ["--nanos"],
+                                             ["-9", "--nanos"], ["-1", "--millis"]]) + [rng.choice(["t", "i", "t,i", "x"])])
     add("sec2gmtdate", ["sec2gmtdate", rng.choice(["t", "i,t"])])
     add("nest-explode", ["nest"] + rng.choice([["--evar", ";", "-f", "s"],
                                                ["--explode", "--values", "--across-fields", "-f", "s"],
                                                ["--explode", "--pairs", "--across-records", "-f", "m"],
                                                ["--explode", "--pairs", "--across-fields", "-f", "m"],
-                                               ["--explode", "--values", "--across-records", "-f", "a", "--nested-fs", "e"]]))
-    add("nest-implode", ["nest", "--ivar", ";", "-f", rng.choice(["b", "a", "s"])])
+                                               ["--explode", "--values", "--across-records", "-f", "a", "--nested-fs", "e"],
+                                               ["--explode", "--values", "--across-records", "-f", "s"],
+                                               ["--explode", "--values", "--across-fields", "-r", "^[sm]$"],
+                                               ["--evar", ";", "-r", "^s"],
+                                               ["--explode", "--pairs", "--across-records", "-f", "m", "--nested-ps", ":", "--nested-fs", ";"],
+                                               ["--explode", "--pairs", "--across-fields", "-f", "s", "--nested-ps", ";"]]))
+    add("nest-implode", ["nest"] + rng.choice([["--ivar", ";", "-f", rng.choice(["b", "a", "s"])],
+                                               ["--implode", "--values", "--across-records", "-f", rng.choice(["b", "a"])],
+                                               ["--implode", "--values", "--across-records", "--nested-fs", "|", "-f", "a"]]))
     add("group-by", ["group-by", g])
     add("group-like", ["group-like"])
-    add("decimate", ["decimate", "-n", str(rng.choice([2, 3]))] + rng.choice([[], ["-b"], ["-e", "-g", "a"]]))
-    add("top", ["top", "-n", str(rng.choice([1, 2])), "-f", nf] + rng.choice([[], ["-a"], ["-g", "a", "-a"], ["--min"], ["-g", g, "-o", "rank"]]))
-    add("fraction", ["fraction", "-f", rng.choice(["t", "i", "t,i"])] + rng.choice([[], ["-p"], ["-c"], ["-g", "a"]]))
-    add("rank", ["rank", "-f", nf] + rng.choice([[], ["-g", "a"]]))
+    add("decimate", ["decimate", "-n", str(rng.choice([2, 3, 4]))] + rng.choice([[], ["-b"], ["-e"], ["-e", "-g", "a"], ["-b", "-g", g], ["-g", g]]))
+    add("top", ["top", "-n", str(rng.choice([1, 2, 3]))] + rng.choice([["-f", nf], ["-f", nf, "-a"], ["-f", nf, "-g", "a", "-a"], ["-f", nf, "--min"],
+                                                                      ["-f", nf, "-g", g, "-o", "rank"], ["-f", "i,x"], ["-f", "i,x", "--min", "-g", "a"],
+                                                                      ["-f", nf, "--max", "-F"]]))
+    add("fraction", ["fraction", "-f", rng.choice(["t", "i", "t,i"])] + rng.choice([[], ["-p"], ["-c"], ["-g", "a"], ["-p", "-c"], ["-c", "-g", g]]))
+    add("rank", ["rank", "-f", rng.choice([nf, "i,x"])] + rng.choice([[], ["-g", "a"], ["--sorted"], ["--sorted", "-g", "a"]]))
     add("nothing", ["nothing"])
     add("sort-within-records", ["sort-within-records"] + rng.choice([[], ["-r"]]))
     add("altkv", ["altkv"])
@@ -491,8 +531,11 @@ def catalogue(rng):
     add("histogram", ["histogram", "-f", "i,x"] + rng.choice([["--lo", "-20", "--hi", "60", "--nbins", "4"],
                                                               ["--auto", "--nbins", "3"],
                                                               ["--lo", "0", "--hi", "10", "--nbins", "2", "-o", "h_"]]))
-    add("seqgen", ["seqgen", "--start", "1", "--stop", str(rng.choice([0, 1, 5, 700]))] + rng.choice([[], ["-f", "i"], ["-f", "id"]]))
-    add("repeat", ["repeat", "-n", str(rng.choice([0, 2, 2, 3]))])
+    add("seqgen", ["seqgen"] + rng.choice([["--start", "1", "--stop", str(rng.choice([0, 1, 5, 700]))], ["--start", "5", "--stop", "1", "--step", "-1"],
+                                           ["--start", "1", "--stop", "2", "--step", "0.25"], ["--start", "3", "--stop", "3", "--step", "0"],
+                                           ["--start", "10", "--stop", "40", "--step", "7"]])
+        + rng.choice([[], ["-f", "i"], ["-f", "id"]]))
+    add("repeat", ["repeat"] + rng.choice([["-n", "0"], ["-n", "2"], ["-n", "2"], ["-n", "3"], ["-f", "rc"]]))
     add("skip-trivial-records", ["skip-trivial-records"])
     add("case", ["case", rng.choice(["-u", "-l", "-s", "-t"])] + rng.choice([["-k"], ["-v"], []]) + ["-f", rng.choice(["a,b", "a", "s,id"])])
     add("sub", [rng.choice(["sub", "gsub", "ssub"])] + rng.choice([["-f", "a,b"], ["-a"], ["-f", "s,id"]]) + ["e", "E"])
@@ -524,7 +567,8 @@ def catalogue(rng):
     add("bootstrap", ["bootstrap"])
     add("bootstrap-ci", ["bootstrap-ci", "-f", rng.choice(["x", "x,i"]), "-n", "40"] + rng.choice([[], ["-g", "a"], ["-a", "mean,median"]]))
     add("tee", ["tee", "--ojsonl", "--jvquoteall", "@SIDE@.out"])
-    add("split", ["split", "-v", "--ojsonl", "--jvquoteall", "--prefix", "@SIDE@"] + rng.choice([["-g", "a"], ["-n", "3"], ["-m", "2"]]))
+    add("split", ["split", "-v", "--ojsonl", "--jvquoteall", "--prefix", "@SIDE@"] + rng.choice([["-g", "a"], ["-n", "3"], ["-m", "2"], ["-g", "a,b", "-j", "+"],
+                                                                                                 ["-n", "1"], ["-m", "3", "--suffix", "part"]]))
     return C
 
 
@@ -615,27 +659,33 @@ def _mk_verbs(picks):
 
 # The one documented reason for `A then B` to differ from `A | B` through a lossless format: numbers read from text are
 # typed by their spelling (reference-main-arithmetic.md), so a *float* whose rendering is an integer literal (7.0 * 2 prints
-# as 14) is an int for the next process but still a float for the next verb of a chain.  RETYPE is the identity on every
-# other value; on exactly those values it does what the boundary does (float spelled like an integer -> int), also inside
-# maps and arrays.  It reports on stderr what it did: VF_NORM per re-typed value, VF_UNSAFE for a value whose int()
-# would not print like the float did (|v| >= 2^53, negative zero).
-RETYPE = ('func vf_nz(v) {'
-          ' if (is_map(v)) { return apply(v, func(k, w) { return {k: vf_nz(w)}; }); }'
-          ' if (is_array(v)) { return apply(v, func(w) { return vf_nz(w); }); }'
-          ' if (is_float(v) && string(v) =~ "^[-+]?[0-9]+$") {'
-          ' if (abs(v) >= 9007199254740992 || string(v) =~ "^[-+]0+$") { eprint "VF_UNSAFE"; return v; }'
-          ' eprint "VF_NORM"; return int(v); }'
-          ' return v; }'
-          ' $* = vf_nz($*)')
+# as 14) is an int for the next process but still a float for the next verb of a chain.  The RETYPE program touches nothing
+# but exactly those values (also inside maps and arrays; the record itself is never rebuilt, other fields are never
+# assigned): it assigns each of them int(v) - what the boundary does - or, as the CONTROL variant, assigns each of them
+# the unchanged v.  It reports on stderr: VF_NORM per value touched, VF_UNSAFE for a value whose int() would not print
+# like the float did (|v| >= 2^53, negative zero; left alone).
+_RETYPE_TEMPLATE = ('func vf_nz(v) {'
+                    ' if (is_map(v)) { return apply(v, func(k, w) { return {k: vf_nz(w)}; }); }'
+                    ' if (is_array(v)) { return apply(v, func(w) { return vf_nz(w); }); }'
+                    ' if (is_float(v) && string(v) =~ "^[-+]?[0-9]+$") {'
+                    ' if (abs(v) >= 9007199254740992 || string(v) =~ "^[-+]0+$") { eprint "VF_UNSAFE"; return v; }'
+                    ' eprint "VF_NORM"; @vf_n += 1; return @CONV@; }'
+                    ' return v; }'
+                    ' begin { @vf_n = 0 }'
+                    ' for (k, v in $*) {'
+                    ' if (is_float(v) || is_map(v) || is_array(v)) {'
+                    ' var before = @vf_n; var w = vf_nz(v); if (@vf_n > before) { $[k] = w } } }')
+RETYPE = _RETYPE_TEMPLATE.replace("@CONV@", "int(v)")
+RETYPE_CONTROL = _RETYPE_TEMPLATE.replace("@CONV@", "v")
 
 
-def _retyped_chain(res, verbs, pre, inp, aux):
-    """The chain once more with RETYPE inserted at every `then` boundary.
-    -> (records or None, number of values re-typed, unsafe seen, argv)."""
+def _chain_with_inserted(res, verbs, pre, inp, aux, program):
+    """The chain once more with `put program` inserted at every `then` boundary.
+    -> (records or None, number of values touched, unsafe seen, argv)."""
     argv = list(pre)
     for j, v in enumerate(verbs):
         if j:
-            argv += ["then", "put", RETYPE, "then"]
+            argv += ["then", "put", program, "then"]
         argv += v["argv"]
     r = R.mlr(argv, stdin=inp, files=aux)
     bump(res, "a_runs")
@@ -747,6 +797,8 @@ def pipe_case(case):
 
     # ---- the pipes
     def prefer_json(r2):
+        if len(case.get("plans") or ()) == 1:
+            return ["jsonl"]         # all-ordered-pairs block: the stage's JSON Lines observation itself is the intermediate (one process less)
         return [r2.choice(["json", "jsonl"])]
 
     def prefer_dkvp(r2):
@@ -759,7 +811,9 @@ def pipe_case(case):
     if len(verbs) >= 2:
         plans += [("dkvp", prefer_dkvp), ("xsv", prefer_xsv)]
     if "explicit" in case and tier == "quick":
-        plans = plans[:1]   # key-lifecycle core: 1015 pairs; one (JSON) intermediate each in the quick tier
+        # key-lifecycle core: ~1000 pairs; one intermediate each in the quick tier: JSON, or - for the number-spelling profile,
+        # which never travels through JSON - DKVP (before the audit these 25% of the pairs went unjudged)
+        plans = plans[1:2] if rich else plans[:1]
     if case.get("plans"):
         plans = [pl for pl in plans if pl[0] in case["plans"]]   # all-ordered-pairs block: one intermediate-format plan per pair
     seen_fmt_seqs = set()
@@ -907,25 +961,33 @@ def pipe_case(case):
                             vclass = "int-literal-beyond-int64"
                         break
             # Explain before accusing - constructively.  The only documented source of a chain/pipe difference is the
-            # loss of float-ness of a float spelled like an integer at a text boundary (see RETYPE).  Re-run the chain with
-            # exactly those values re-typed at every `then`: the excuse holds only if that run re-typed at least one value
-            # AND its output is record-for-record the pipe's output, i.e. the whole difference - the differing cells
-            # included - is accounted for by those values and nothing else.
+            # loss of float-ness of a float spelled like an integer at a text boundary (see RETYPE).  The excuse holds only if
+            # (1) re-running the chain with exactly those values re-typed at every `then` touches at least one value,
+            # (2) the CONTROL run - the same inserted program assigning the same values unchanged - reproduces the original
+            #     chain output (so the inserted stage by itself hides nothing: a stale index, an aliased record ...), and
+            # (3) the re-typed run equals the pipe's output record for record, i.e. the whole difference - the differing
+            #     cells included - is accounted for by those values and nothing else.
             retyped_note = None
             if dc in ("value", "type"):
-                rt_recs, n_norm, unsafe, rt_argv = _retyped_chain(res, verbs, chain_rpb + IFLAG[ifmt] + final + NOFLAT, inp, aux)
-                if n_norm and rt_recs is not None and ((rt_recs == pipe_recs) if with_kind else (kt(rt_recs) == kt(pipe_recs))):
-                    res["skipped"] += 1
-                    bump(res, "a_declined_integral_float_crosses_boundary")
-                    continue
-                if unsafe:
-                    # a float >= 2^53 (or -0) spelled like an integer crossed a boundary: int() of it need not print like
-                    # the float did, so the re-typed run cannot stand in for the pipe; nothing can be concluded
-                    res["skipped"] += 1
-                    bump(res, "a_declined_integral_float_unsafe_to_retype")
-                    continue
-                retyped_note = {"values_retyped_at_boundaries": n_norm, "retyped_chain_argv": rt_argv,
-                                "retyped_chain_equals_pipe": False}
+                same_as = (lambda x, y: x is not None and ((x == y) if with_kind else (kt(x) == kt(y))))
+                pre = chain_rpb + IFLAG[ifmt] + final + NOFLAT
+                rt_recs, n_norm, unsafe, rt_argv = _chain_with_inserted(res, verbs, pre, inp, aux, RETYPE)
+                retyped_note = {"values_retyped_at_boundaries": n_norm, "retyped_chain_argv": rt_argv}
+                if n_norm or unsafe:
+                    ct_recs, _, _, _ = _chain_with_inserted(res, verbs, pre, inp, aux, RETYPE_CONTROL)
+                    control_ok = same_as(ct_recs, chain_recs)
+                    retyped_note["control_run_equals_chain"] = control_ok
+                    retyped_note["retyped_chain_equals_pipe"] = same_as(rt_recs, pipe_recs)
+                    if control_ok and n_norm and same_as(rt_recs, pipe_recs):
+                        res["skipped"] += 1
+                        bump(res, "a_declined_integral_float_crosses_boundary")
+                        continue
+                    if control_ok and unsafe:
+                        # a float >= 2^53 (or -0) spelled like an integer crossed a boundary: int() of it need not print like
+                        # the float did, so the re-typed run cannot stand in for the pipe; nothing can be concluded
+                        res["skipped"] += 1
+                        bump(res, "a_declined_integral_float_unsafe_to_retype")
+                        continue
             # a record with duplicate field names (not representable in any format) made by some stage?
             dup_from = "-"
             for v, obs in zip(verbs, stage_recs + [chain_recs]):
@@ -1747,19 +1809,28 @@ def run(chk):
     only = getattr(chk, "only", None)
     q = chk.quick()
     chk.sample_cap = 9
+    fam_names = _family_names()
     chk.rule = (
-        "a: verb chains of length 2-4 drawn from a catalogue of 93 context-free verb/option families (put/filter programs that do "
-        "not read NR/FNR/FILENAME, no random verbs, no print) x generated inputs (0..620 records, DKVP/JSON/CSV, ragged/heterogeneous/wide, "
-        "25% with non-canonical number spellings) x up to 3 intermediate-format plans per chain (JSON|JSONL; DKVP; CSV|TSV), text formats only "
-        "when the stage's records are inside that format's lossless domain; quick tier enumerates a 30 x 12 core of (duplicating / retaining / "
-        "regrouping / file-writing upstream) x (order- and identity-sensitive downstream) pairs, thorough tier all ordered pairs of families. "
+        f"a: verb chains of length 2-4 drawn from a catalogue of {len(fam_names)} context-free verb/option families, each drawing among the documented "
+        "option forms that select another internal path (head -n k / -n -k, tail -n k / -n +k, with and without -g, ...) (put/filter programs that do "
+        "not read NR/FNR/FILENAME, no print; shuffle/bootstrap/bootstrap-ci under one --seed, at most one per chain) x generated inputs "
+        "(0..1300 records, DKVP/JSON/CSV, ragged/heterogeneous/wide, 25% with non-canonical number spellings; 4-12% of the cases have 513+ "
+        "records read at --records-per-batch 511/513/1000/2000, i.e. beyond the 500-record default batch and the readers' 512-record slab) "
+        "x up to 3 intermediate-format plans per chain (JSON|JSONL; DKVP; CSV|TSV), text formats only "
+        "when the stage's records are inside that format's lossless domain; quick tier enumerates a 30 x 16 core of (duplicating / retaining / "
+        "regrouping / file-writing upstream) x (order-, position- and identity-sensitive downstream) pairs and the " + f"{len(KEY_UP)} x {len(KEY_DOWN)}" + " key-lifecycle pairs; the thorough tier "
+        "has those two blocks with all three plans (key-lifecycle on narrow and wide records, plus 400 up-up-down triples), 700 chains of length 3-4 "
+        "with all three plans, and every ordered pair of families once with one plan (plans rotate over the pair matrix). "
         "Non-trivial = every stage's output differs from its input (A changes the input and B changes A's output). "
-        "b: lists of 1-5 files per format (9 formats) with empty / header-only / `[]` files, headers differing per file, implicit header, "
-        "ragged rows, CRLF, no final newline, csvlite/pprint schema changes, odd file names, the same file twice, x batch sizes 1/2/500 x "
+        "b: lists of 1-5 files per format (17 input formats: every reader Miller has) with empty / header-only / `[]` files, headers differing per file, "
+        "implicit header, ragged rows, comment lines, byte-order marks, barred PPRINT, CRLF, no final newline, csvlite/tsvlite/pprint schema changes, "
+        "odd file names, the same file twice, x batch sizes 1/2/500 (and 513/1000/5000 when the list holds > 500 records) x "
         "probe variants (core NF/NR/FNR/FILENAME/FILENUM + end-block NR in two chained puts; context after a pass-through verb; "
-        "cat --filename --filenum; per-file aggregation; end only) + `mlr V f1..fn` == concat(`mlr V fi`). Non-trivial = >= 2 non-empty files. "
-        "c: each generated input (1-3 files, 0..20000 records) materialised in ~30 source forms; non-trivial = a form run over >= 1 record; "
-        "distinct = by generator seed (and form)")
+        "cat --filename --filenum; per-file aggregation; end only) + `mlr V f1..fn` == concat(`mlr V fi`); plus a sweep of every reader x every "
+        "per-file reader option x lists whose files all have their own columns. Non-trivial = >= 2 non-empty files. "
+        "c: each generated input (1-3 files, 0..20000 records) materialised in ~50 source forms (names after the verb, --from, --mfrom, --files lists "
+        "with/without final newline / CRLF / twice / mixed with the others, file:// names, stdin, compression by extension / flag / prepipe); "
+        "non-trivial = a form run over >= 1 record; distinct = by generator seed (and form)")
     fam_names = _family_names()
     if not only or "a" in only:
         cases = []
@@ -1767,7 +1838,9 @@ def run(chk):
             idx = 0
             for fa in CORE_UP:
                 for fb in CORE_DOWN:
-                    cases.append({"seed": f"{chk.seed}/ac/{idx}", "tier": chk.tier, "families": [fa, fb], "core": True})
+                    # quick tier: the JSON plan and one of the two text plans (alternating); the thorough tier has all three
+                    cases.append({"seed": f"{chk.seed}/ac/{idx}", "tier": chk.tier, "families": [fa, fb], "core": True,
+                                  "plans": ["json", "dkvp" if idx % 2 == 0 else "xsv"]})
                     idx += 1
             chk.extra["a_core_pairs_enumerated"] = idx
             kidx = 0
@@ -1776,7 +1849,7 @@ def run(chk):
                     cases.append({"seed": f"{chk.seed}/ak/{kidx}", "tier": chk.tier, "explicit": [ua, da], "core": True, "wide": kidx % 3 != 0})
                     kidx += 1
             chk.extra["a_key_lifecycle_pairs_enumerated"] = kidx
-            for i in range(160):
+            for i in range(120):
                 cases.append({"seed": f"{chk.seed}/a2/{i}", "tier": chk.tier, "len": 2})
             for i in range(70):
                 cases.append({"seed": f"{chk.seed}/a3/{i}", "tier": chk.tier, "len": 3})
@@ -1804,19 +1877,19 @@ def run(chk):
                     for wide in (True, False):
                         cases.append({"seed": f"{chk.seed}/ak/{kidx}", "tier": chk.tier, "explicit": [ua, da], "core": True, "wide": wide})
                         kidx += 1
-            for i in range(600):   # key-lifecycle chains of length 3: up, up, down
+            for i in range(400):   # key-lifecycle chains of length 3: up, up, down
                 r3 = random.Random(f"{chk.seed}/ak3/{i}")
                 cases.append({"seed": f"{chk.seed}/ak3/{i}", "tier": chk.tier, "explicit": [r3.choice(KEY_UP), r3.choice(KEY_UP), r3.choice(KEY_DOWN)],
                               "core": True, "wide": i % 4 != 0})
             chk.extra["a_key_lifecycle_pairs_enumerated"] = kidx
-            for i in range(1500):
+            for i in range(700):
                 cases.append({"seed": f"{chk.seed}/a34/{i}", "tier": chk.tier, "len": 3 + (i % 2)})
             chk.extra["a_ordered_family_pairs_enumerated"] = len(fam_names) ** 2
         for c in cases[:2] + cases[-2:]:
             c["sample"] = True
         chk.pmap(pipe_case, cases, chunksize=4, label="a chain-vs-pipe")
     if not only or "b" in only:
-        n = 12 if q else 70
+        n = 9 if q else 36
         cases = [{"seed": f"{chk.seed}/b/{fmt}/{i}", "fmt": fmt, "tier": chk.tier} for fmt in B_FORMATS for i in range(n)]
         # reader-option sweep (added after seeded change C05-b, widened after the audit): per-file reader state (the header,
         # implicit or read; the BOM; comment lines before the header; the bars of barred PPRINT) must not leak from one file
@@ -1828,14 +1901,14 @@ def run(chk):
             for oi, oname in enumerate(B_OPTS.get(fmt, []) + ["-"]):
                 fo = {} if oname == "-" else {oname: True}
                 heavy = fmt in ("csv", "tsv") and oname in ("implicit", "ragged", "-")
-                for i in range((6 if heavy else 3) if q else (40 if heavy else 16)):
+                for i in range((6 if heavy else 3) if q else (40 if heavy else 12)):
                     cases.append({"seed": f"{chk.seed}/bo/{fmt}/{oi}/{i}", "fmt": fmt, "tier": chk.tier, "force_opts": fo, "fresh_keys": True})
         for c in cases[:1] + cases[len(cases) // 2:len(cases) // 2 + 1] + cases[-1:]:
             c["sample"] = True
         chk.pmap(ctx_case, cases, chunksize=2, label="b context model")
     if not only or "c" in only:
         fmts = ["dkvp", "csv", "json"] if q else ["dkvp", "csv", "json", "tsv", "nidx", "xtab", "jsonl"]
-        n = 8 if q else 30
+        n = 8 if q else 18
         cases = [{"seed": f"{chk.seed}/c/{fmt}/{i}", "fmt": fmt, "tier": chk.tier} for fmt in fmts for i in range(n)]
         for c in cases[:1] + cases[-1:]:
             c["sample"] = True
@@ -1868,20 +1941,40 @@ def run(chk):
         "a: inputs with non-canonical number spellings (0x1F, +5, .5, 0b101, 1.5e0) are never sent through JSON intermediates: JSON output is "
         "documented to re-render numbers whose original text is not valid JSON (reference-main-data-types.md); their final output uses --jvquoteall so that "
         "original text is compared",
-        "a: a mismatch is declined (skipped, counted in observed.a_declined_integral_float_crosses_boundary) when a typeof() probe shows that a value "
-        "crossing a pipe boundary is a float spelled like an integer (7.0 * 2 prints as 14): numbers read from text are typed by their spelling "
-        "(reference-main-arithmetic.md), so no format, JSON included, carries that float-ness, and type-sensitive downstream verbs "
-        "(format-values, typeof, summary field_type) then differ by documented inference rules",
+        "a: a value/type mismatch is declined (skipped, counted in observed.a_declined_integral_float_crosses_boundary) only when it is reproduced "
+        "constructively: the chain is run again with a `put` inserted at every `then` that assigns int(v) to every float spelled like an integer "
+        "(7.0 * 2 prints as 14) and touches nothing else - which is exactly what a text boundary does, since numbers read from text are typed by "
+        "their spelling (reference-main-arithmetic.md) and no format, JSON included, carries that float-ness. The excuse holds only if that run "
+        "re-typed at least one value, its output equals the pipe's record for record, AND a control run (the same inserted program assigning the "
+        "same values unchanged) reproduces the original chain output, so that the inserted stage by itself masks nothing; any residual difference "
+        "is reported. If such a float is >= 2^53 or -0 (int() of it need not print alike) the case is skipped as undecidable "
+        "(observed.a_declined_integral_float_unsafe_to_retype)",
+        "a: shuffle / bootstrap / bootstrap-ci run with the same --seed on the chain and on every piped process (`--seed`: reproducible output, "
+        "flag table); a chain with two of them is declined (one generator shared by two verbs, draw order unspecified); `sample` is excluded because "
+        "its reservoir step is driven by the records' original NR (the property excludes verbs that consult the original record counters)",
         "a: when both the chain and the pipe fail the case is skipped; the pipe is run sequentially (each stage to completion), so tee/split files "
         "are compared only when no later verb is documented/known to stop consuming input early (head without -g, seqgen, nothing, check)",
         "b: an empty (0-byte) file, a header-only CSV/TSV/PPRINT file and a JSON `[]` file contribute no records but count in FILENUM "
         "(FILENUM = 1-up index of the file, reference-dsl-variables.md); FNR/FILENAME in end blocks are not specified and not checked; "
         "end-block NR after `head` is not checked",
         "b: ragged rows: surplus values are keyed by 1-up column number; too-short rows keep only the keys they have values for in CSV (recorded "
-        "example in record-heterogeneity.md) but are filled with empty strings in TSV (flag table) - the two readers differ, which is C01/C02's "
-        "subject, the model follows each; implicit header makes the header line record 1 with keys 1..n",
+        "example in record-heterogeneity.md) but are filled with empty strings by the TSV, CSV-lite, TSV-lite and PPRINT readers (flag table) - "
+        "the readers differ, which is C01/C02's subject, the model follows each; implicit header makes the header line record 1 with keys 1..n "
+        "(file-formats.md: common to CSV, TSV, CSV-lite, TSV-lite - hence USV/ASV, which are CSV-lite with other separators; the PPRINT reader "
+        "honours the same flag and is held to the same per-file behaviour)",
+        "b: --skip-comments: lines starting with # are not data wherever they stand, the line before a header included, and do not count in FNR "
+        "(file-formats.md, Comments in data); a UTF-8 byte-order mark at the head of a CSV / CSV-lite file is stripped (release notes 5.2.0) whichever "
+        "the file's position in the list; BOMs in other formats are not documented and not exercised; --barred-input files are generated in the layout "
+        "`mlr --opprint --barred` writes",
+        "b: YAML records are written with their keys in sorted order (the YAML reader's key order is the open finding C01-F6, not this property's subject); "
+        "YAML scalars are double-quoted strings; recutils/DCF values are non-empty single-line words",
         "b: the order of the two fields prepended by `cat --filename --filenum` is not documented; either order is accepted",
         "c: FILENAME for standard input is `(stdin)` (the spelling Miller's own diagnostics use); compressed stdin with --gzin/--bz2in/--zin and "
         "--prepipe on stdin are included because they work on this tree (a regression would be reported)",
-        "c: --prepipe-bz2 is documented as `--prepipe bz2` and no `bz2` command exists on this machine: not exercised; URLs need a network: not exercised",
+        "c: --prepipe-bz2 is documented as `--prepipe bz2` and no `bz2` command exists on this machine: not exercised; http(s) URLs need a network: not "
+        "exercised; file:// names are (new-in-miller-6.md), FILENAME being the name as given",
+        "c: all ways of naming inputs append to one list in command-line order (--from / --mfrom / --files `may be used more than once`; names after "
+        "the verb come last): mixed forms are expected to read the files in that order; names in a --files list are relative to the working directory; "
+        "blank lines inside a --files list are not documented and not exercised; a CRLF-terminated list is expected to work like an LF-terminated one "
+        "(CRLF data files are accepted by default; the option's code carries a TODO for it) - on this tree it does not: finding C05-F10",
     ]
